@@ -110,6 +110,9 @@ static void wakeup_event_condition(void *vp, void *arg)
     }
 }
 
+/* For the sweep in cmi_process_cancel_awaiteds, which must know the library's own wakeup calls */
+cmb_event_func *const cmi_condition_wakeup_action = wakeup_event_condition;
+
 /*
  * Two-pass approach to avoid mutate-while-iterate bugs: First iterate over the
  * hashheap, note the waiters that evaluate to true, in waiting list order, then
